@@ -1,5 +1,7 @@
 import Saito.Lemmas.LoopFixed
 import Saito.Lemmas.LoopRefine
+import Saito.Lemmas.StateInv
+import Saito.Props.C03
 /-!
 # C04 — a rejected block leaves no trace; block processing always returns
 * `fixed_*`: the repaired reorganisation (flag `windFailureRestores`) is total and restores the ledger.
@@ -297,5 +299,40 @@ theorem loop_failed_reorg_witness :
   obtain ⟨h1, h2, h3, h4, h5, h6, h7⟩ := loop_failed_reorg_witness_hyps
   exact ⟨st', hst', loop_failed_reorg_no_trace wfl [6, 5, 4] [3, 2] wPre st' [wb 1 0 1 [] [10, 11]] _
     (Nat.le_refl _) h1 h2 hst' h3 h4 h5 h6 h7⟩
+
+
+/-! ### C04 at state level: a rejected block leaves no trace in the observable state -/
+
+/-- **C04 (state level).**  Repaired tree (`ringDeleteKeepsNone`, `windFailureRestores`, `txVerdict`), state
+    satisfying the invariant with chain `lc`, non-orphan delivery.  If `add_block` answers `invalid` then the
+    state is what it was before the call (`SameObs`): the store with its on-chain flags is the same list, every
+    item of the by-height index is the same (entries and on-chain mark), the tip pointer is the same, the
+    spendable SET is the same; consequently `lcDump`, `ringDump` and `latest` are unchanged, the rejected block
+    is not in the store, and the invariant holds again for the same chain.  No hypothesis that the old chain
+    re-validates is needed: the invariant provides it (`InvX.windOld`).  What remains of the call: the amount
+    table `amt` keeps the amounts of the rejected block's keys and `ringEmpty` is `false`. -/
+theorem rejected_block_no_trace_state (fl : Flags) (hd : fl.ringDeleteKeepsNone = true)
+    (hf : fl.windFailureRestores = true) (hv : fl.txVerdict = true) (st : State) (lc : List ABlock) (b : ABlock)
+    (q : List Nat) (h : InvX 0 st lc) (d : Deliverable st b) (ho : (addBlock fl st b q).2 = .invalid) :
+    SameObs st (addBlock fl st b q).1 ∧
+      lcDump (addBlock fl st b q).1 = lcDump st ∧ ringDump (addBlock fl st b q).1 = ringDump st ∧
+      latest (addBlock fl st b q).1 = latest st ∧ getB (addBlock fl st b q).1 b.hash = none ∧
+      InvX 0 (addBlock fl st b q).1 lc := by
+  rcases addBlock_cases fl hd hf hv h d q with h1 | h1 | h1
+  · rw [ho] at h1; exact absurd h1.1 (by decide)
+  · obtain ⟨_, hinv, hobs⟩ := h1
+    refine ⟨hobs, by rw [hinv.lcDump, h.lcDump], ringDump_congr hobs, by rw [hinv.latest, h.latest], ?_, hinv⟩
+    unfold getB
+    rw [hobs.1]
+    exact d.fresh
+  · rw [ho] at h1; rcases h1.1 with h2 | h2 <;> exact absurd h2 (by decide)
+
+/-- non-vacuity: the last delivery of the witness history of C03 (`C03.istate 6`, block 7 with an invalid header
+    on top of the reorganised chain) is answered `invalid` and satisfies the hypotheses -/
+example : ∃ lc, InvX 0 (Saito.C03.istate 6) lc ∧ Deliverable (Saito.C03.istate 6) (Saito.C03.ib 7 6 5 [16] [17] false) ∧
+    (addBlock Saito.C03.ifl (Saito.C03.istate 6) (Saito.C03.ib 7 6 5 [16] [17] false) []).2 = .invalid := by
+  have h6 : StInv (Saito.C03.istate 6) := Saito.C03.inv_witness6
+  obtain ⟨lc, h⟩ := h6
+  exact ⟨lc, h, by constructor <;> decide +kernel, by decide +kernel⟩
 
 end Saito.C04
